@@ -304,6 +304,23 @@ def check_codec(case, ctx):
             and hp.parent_fingerprint == node.fpr, "codec/xpub_fields")
     want_net = "testnet" if case["testnet"] else "mainnet"
     require(hd.network == want_net and hp.network == want_net, "codec/network")
+    # depth, parent fingerprint and child number of a non-master key are plain data for the codec: any depth
+    # >= 1, any fingerprint (00000000 included: exports with a zeroed fingerprint exist) and any child number
+    sp_, sc_ = case["sub_pos"], case["sub_chr"]
+    depth2 = 1 + sp_[0] % 255
+    fpr2 = [bytes(4), b"\x00\x00\x00\x01", node.fpr, bytes(c % 256 for c in sc_[:4])][sp_[1] % 4]
+    num2 = [0, 1, 2**31 - 1, 2**31, 2**32 - 1, sp_[2]][sp_[3] % 6]
+    head = bytes([depth2]) + fpr2 + num2.to_bytes(4, "big") + node.c
+    if fpr2 == bytes(4):
+        ctx.label("zero_parent_fingerprint_on_derived_key")
+    for ver, keyb, parser, name in ((vprv, b"\x00" + node.k.to_bytes(32, "big"), HDPrivateKey.parse, "xprv"),
+                                    (vpub, ec.sec(node.K), HDPublicKey.parse, "xpub")):
+        text = bip32.b58check_encode(ver + head + keyb)
+        obj = must(parser, f"codec/parse_{name}_with_free_header_fields", text)
+        back = obj.xprv() if name == "xprv" else obj.xpub()
+        require(back == text and obj.depth == depth2 and obj.parent_fingerprint == fpr2
+                and obj.child_number == num2, f"codec/{name}_header_fields_roundtrip",
+                f"depth={depth2} fpr={fpr2.hex()} num={num2}: {text} -> {back}")
     # single-character substitutions, decided by the independent Base58Check decoder
     for pos, ch in zip(case["sub_pos"], case["sub_chr"]):
         for s, parser in ((xprv, HDPrivateKey.parse), (xpub, HDPublicKey.parse)):
